@@ -160,6 +160,9 @@ def tainted_vars(f):
     return t
 
 
+_PARM_BUSY = set()
+
+
 def is_tainted(f, e, tv):
     s = strip(e)
     if s is None:
@@ -176,6 +179,17 @@ def is_tainted(f, e, tv):
         if s.get("dk") == "Var":
             return s["n"] in tv
         if s.get("dk") == "Parm":
+            if f.static and (f.name, s["n"]) not in _PARM_BUSY:
+                # a static helper's parameter is what its callers pass (all call sites are in this unit)
+                pi = [i for i, q in enumerate(f.params) if q[0] == s["n"]]
+                sites = [(g, c) for g in f.unit.funcs.values() if g is not f for c in g.calls(f.name)]
+                refs = sum(1 for g in f.unit.funcs.values() for x in g.walk() if x["k"] == "DeclRefExpr" and x.get("n") == f.name)
+                if pi and sites and refs == len(sites) and all(1 + pi[0] < len(c["c"]) for g, c in sites):
+                    _PARM_BUSY.add((f.name, s["n"]))
+                    try:
+                        return any(_tainted(g, c["c"][1 + pi[0]], c) for g, c in sites)
+                    finally:
+                        _PARM_BUSY.discard((f.name, s["n"]))
             return s["n"] in ("source", "str", "text", "url", "title", "value", "string") and "char" in (s.get("t") or "")
         return False
     if k == "CallExpr":
@@ -560,6 +574,11 @@ def r_sink_provenance(P, chk):
                 return True
             if c in ("my_strdup", "strdup") and len(s["c"]) > 1:
                 return positive(f, s["c"][1], depth + 1)
+            # a first-party helper every return value of which is positive (`return candidate;` with candidate = uuid_new())
+            h = P.resolve(f, c) if c else None
+            if h is not None and P.first_party(h) and h is not f and depth < 2:
+                rets = [r for r in h.walk() if r["k"] == "ReturnStmt" and r.get("c") and r["c"][0] is not None]
+                return bool(rets) and all(positive(h, r["c"][0], depth + 1) for r in rets)
             return False
         if s["k"] == "MemberExpr" and (s.get("rec"), s["n"]) in safe_fields:
             return True
